@@ -758,6 +758,12 @@ class GroupBy:
         value_names, value_list, type_list, common_index = self._preprocess_arguments(
             values, mask
         )
+        if mask is not None and not (
+            pd.api.types.is_bool_dtype(mask)
+            or (isinstance(mask, pl.Series) and mask.dtype == pl.Boolean)
+        ):
+            # the row-wise kernels read mask[row] as a truth value: positions would be misread
+            raise TypeError("mask must be a boolean array")
 
         sig = signature(func)
         shared_kwargs = dict(
